@@ -24,7 +24,7 @@ RULE = ('Seeded histories of 2..8 operations on a directory with <= 3 paths: put
 ASSUMPTIONS = ['fault-free by statement: no crash / truncation is injected here', 'SED values are compared within 1e-12 relative (SED.read multiplies and divides by nu even when the unit is unchanged); cube and convolved files exactly',
                'for an SED written without apertures only the single row of values is required (apertures need not come back as None)']
 PROBES = ['overwrite_other_shape', 'sed_asc_written', 'sed_desc_written', 'cube_no_unc', 'cube_no_apertures', 'cube_memmap_read', 'cube_get_sed',
-          'read_order_wav', 'read_order_nu', 'unit_erg', 'unit_jy', 'conv_no_apertures', 'stale_memmap_reader', 'sed_no_apertures', 'gz_path', 'gz_sibling_present', 'read_in_other_unit', 'uncertainties_in_other_unit', 'cube_get_sed_twice', 'name_at_other_position_in_earlier_cube', 'apertures_not_increasing', 'axis_given_as_frequencies', 'axis_in_other_length_unit', 'same_object_written_twice']
+          'read_order_wav', 'read_order_nu', 'unit_erg', 'unit_jy', 'conv_no_apertures', 'stale_memmap_reader', 'sed_no_apertures', 'gz_path', 'gz_sibling_present', 'read_in_other_unit', 'uncertainties_in_other_unit', 'cube_get_sed_twice', 'name_at_other_position_in_earlier_cube', 'apertures_not_increasing', 'axis_given_as_frequencies', 'axis_in_other_length_unit', 'same_object_written_twice', 'object_read_from_a_file_written_again']
 
 
 def budgets(tier):
@@ -70,6 +70,14 @@ def generate(rng, tier, idx):
                 stored[st_['also_to']] = kind
             steps.append(st_)
             stored[p] = kind
+        elif rng.random() < 0.15 and len(paths) > 1:
+            # an object READ from one file is written to another path as it is (re-saving an existing grid)
+            p = rng.choice(sorted(stored))
+            others = [q for q in paths if q != p and not (stored[p] == 'cube' and (q.endswith('.gz') or (q + '.gz') in paths))]
+            if others:
+                q = rng.choice(others)
+                steps.append({'op': 'copy', 'path': p, 'dst': q, 'order': rng.choice(['nu', 'wav']), 'memmap': rng.random() < 0.5})
+                stored[q] = stored[p]
         else:
             p = rng.choice(sorted(stored))
             st = {'op': 'get', 'path': p, 'order': rng.choice(['nu', 'wav']), 'memmap': rng.random() < 0.5, 'pick': rng.randrange(100),
@@ -87,6 +95,10 @@ def repair(sc):
             stored.add(st['path'])
             if st.get('also_to'):
                 stored.add(st['also_to'])
+        elif st['op'] == 'copy':
+            if st['path'] not in stored:
+                return None
+            stored.add(st['dst'])
         elif st['op'] == 'get' and st['path'] not in stored:
             return None
     return sc
@@ -288,6 +300,28 @@ def _execute(sc, sim, out):
             if o['unit'] == 'Jy':
                 out.probe('unit_jy')
             trace.append(('put', o['kind'], o['asc'], o['has_ap'], o['has_unc'], o['unit'], over))
+            continue
+        if st['op'] == 'copy':
+            R = store[st['path']]
+            src, dst = sim.path(st['path']), sim.path(st['dst'])
+            kind = R.o['kind']
+
+            def _copy():
+                if kind == 'cube':
+                    obj = SEDCube.read(src, order=st['order'], memmap=st['memmap'])
+                elif kind == 'sed':
+                    obj = SED.read(src, unit_flux=_unit(R.o['unit']), order=st['order'])
+                else:
+                    obj = ConvolvedFluxes.read(src)
+                obj.write(dst, overwrite=True)
+            r = pipe.call(_copy)
+            if r[0] != 'ok':
+                out.violate('write-failed', 'reading %s (%s) and writing the object to %s raised %s: %s' % (st['path'], kind, st['dst'], pipe.exc_name(r), r[1]),
+                            key='copy/%s/%s@%s' % (kind, pipe.exc_name(r), pipe.where(r[1]) if r[0] == 'exc' else ''))
+                break
+            store[st['dst']] = R
+            out.probe('object_read_from_a_file_written_again')
+            trace.append(('copy', kind, st['order'], st['memmap'] if kind == 'cube' else None))
             continue
         if st['op'] == 'get_stale':
             # a reader that memory-mapped a cube earlier keeps seeing what it read, whatever happened to the path since
